@@ -61,8 +61,8 @@ Notation brel := (brel fl).
 Notation orelb := (orelb fl).
 Notation vrel := (vrel fl).
 
-Lemma crelf_names : forall ns bs fs1 r1 fs2 r2,
-  crelf ns bs fs1 r1 fs2 r2 -> map fst fs1 = map fst fs2.
+Lemma crelf_names : forall a ns bs fs1 r1 fs2 r2,
+  crelf a ns bs fs1 r1 fs2 r2 -> map fst fs1 = map fst fs2.
 Proof. induction 1; cbn; congruence. Qed.
 
 (* ------------------------------------------------------------------ symmetry *)
@@ -70,15 +70,17 @@ Proof. induction 1; cbn; congruence. Qed.
 Lemma crel_sym_mut :
   (forall bs t1 r1 t2 r2, crel bs t1 r1 t2 r2 -> crel bs t2 r2 t1 r1) /\
   (forall bs es1 r1 es2 r2, crels bs es1 r1 es2 r2 -> crels bs es2 r2 es1 r1) /\
-  (forall ns bs fs1 r1 fs2 r2, crelf ns bs fs1 r1 fs2 r2 -> crelf ns bs fs2 r2 fs1 r1) /\
+  (forall a ns bs fs1 r1 fs2 r2, crelf a ns bs fs1 r1 fs2 r2 -> crelf a ns bs fs2 r2 fs1 r1) /\
   (forall b1 b2, brel b1 b2 -> brel b2 b1) /\
   (forall o1 o2, orelb o1 o2 -> orelb o2 o1).
 Proof.
   apply crel_mutind; intros; try (econstructor; eauto; fail).
   - (* C_rec *)
-    constructor. rewrite <- (crelf_names _ _ _ _ _ _ H). assumption.
-  - (* B_recf *)
-    apply B_recf. rewrite <- (crelf_names _ _ _ _ _ _ H). assumption.
+    constructor. rewrite <- (crelf_names _ _ _ _ _ _ _ H). assumption.
+  - (* CF_dep *)
+    apply CF_dep; auto. tauto.
+  - (* B_rec *)
+    apply B_rec. rewrite <- (crelf_names _ _ _ _ _ _ _ H). assumption.
 Qed.
 
 Lemma crel_sym : forall bs t1 r1 t2 r2, crel bs t1 r1 t2 r2 -> crel bs t2 r2 t1 r1.
@@ -101,9 +103,9 @@ Lemma weakenR_mut :
      forall y b, (~ In y (fv t2) \/ In y bs) -> crel bs t1 r1 t2 ((y, b) :: r2)) /\
   (forall bs es1 r1 es2 r2, crels bs es1 r1 es2 r2 ->
      forall y b, (~ In y (flat_map fv es2) \/ In y bs) -> crels bs es1 r1 es2 ((y, b) :: r2)) /\
-  (forall ns bs fs1 r1 fs2 r2, crelf ns bs fs1 r1 fs2 r2 ->
+  (forall a ns bs fs1 r1 fs2 r2, crelf a ns bs fs1 r1 fs2 r2 ->
      forall y b, (~ In y (flat_map (fun p => fv (snd p)) fs2) \/ In y ns \/ In y bs) ->
-     crelf ns bs fs1 r1 fs2 ((y, b) :: r2)) /\
+     crelf a ns bs fs1 r1 fs2 ((y, b) :: r2)) /\
   (forall b1 b2, brel b1 b2 -> True) /\
   (forall o1 o2, orelb o1 o2 -> True).
 Proof.
@@ -163,7 +165,7 @@ Proof.
   - (* at *) intros bs i1 a1 r1 i2 a2 r2 H1 IH1 H2 IH2 y b Hy. cbn [fv] in Hy.
     rewrite in_app_iff in Hy. constructor; [apply IH1|apply IH2]; tauto.
   - (* rec *) intros bs fs1 r1 fs2 r2 H1 IH1 y b Hy. constructor. apply IH1.
-    pose proof (crelf_names _ _ _ _ _ _ H1) as Hn.
+    pose proof (crelf_names _ _ _ _ _ _ _ H1) as Hn.
     destruct Hy as [Hy|Hy]; [|right; now right].
     destruct (in_dec string_dec y (map fst fs1)) as [Hi|Hi]; [right; now left|].
     left. intros Hin. apply Hy. cbn [fv]. apply in_filter_notmem.
@@ -175,11 +177,11 @@ Proof.
   - (* CS_cons *) intros bs e1 es1 r1 e2 es2 r2 H1 IH1 H2 IH2 y b Hy. cbn [flat_map] in Hy.
     rewrite in_app_iff in Hy. constructor; [apply IH1|apply IH2]; tauto.
   - (* CF_nil *) intros; constructor.
-  - (* CF_dep *) intros ns bs f b1 fs1 r1 b2 fs2 r2 Hd1 Hd2 H1 IH1 H2 IH2 y b Hy.
+  - (* CF_dep *) intros a ns bs f b1 fs1 r1 b2 fs2 r2 Hd H1 IH1 H2 IH2 y b Hy.
     cbn [flat_map snd] in Hy. rewrite in_app_iff in Hy. apply CF_dep; auto.
     + apply IH1. rewrite in_app_iff. tauto.
     + apply IH2. tauto.
-  - (* CF_nodep *) intros ns bs f b1 fs1 r1 b2 fs2 r2 Hd1 Hd2 H1 IH1 H2 IH2 y b Hy.
+  - (* CF_nodep *) intros a ns bs f b1 fs1 r1 b2 fs2 r2 Ha Hd1 Hd2 H1 IH1 H2 IH2 y b Hy.
     cbn [flat_map snd] in Hy. rewrite in_app_iff in Hy. apply CF_nodep; auto.
     + apply IH1. destruct Hy as [Hy|[Hy|Hy]]; [left; tauto| |now right].
       left. eapply has_deps_false; eauto.
@@ -201,8 +203,8 @@ Lemma bs_iff_mut :
      forall bs, (forall z, In z bs' <-> In z bs) -> crel bs t1 r1 t2 r2) /\
   (forall bs' es1 r1 es2 r2, crels bs' es1 r1 es2 r2 ->
      forall bs, (forall z, In z bs' <-> In z bs) -> crels bs es1 r1 es2 r2) /\
-  (forall ns bs' fs1 r1 fs2 r2, crelf ns bs' fs1 r1 fs2 r2 ->
-     forall bs, (forall z, In z bs' <-> In z bs) -> crelf ns bs fs1 r1 fs2 r2) /\
+  (forall a ns bs' fs1 r1 fs2 r2, crelf a ns bs' fs1 r1 fs2 r2 ->
+     forall bs, (forall z, In z bs' <-> In z bs) -> crelf a ns bs fs1 r1 fs2 r2) /\
   (forall b1 b2, brel b1 b2 -> True) /\
   (forall o1 o2, orelb o1 o2 -> True).
 Proof.
@@ -247,9 +249,9 @@ Proof.
   - intros; constructor.
   - intros bs' e1 es1 r1 e2 es2 r2 H1 IH1 H2 IH2 bs Hb. constructor; auto.
   - intros; constructor.
-  - intros ns bs' f b1 fs1 r1 b2 fs2 r2 Hd1 Hd2 H1 IH1 H2 IH2 bs Hb.
+  - intros a ns bs' f b1 fs1 r1 b2 fs2 r2 Hd H1 IH1 H2 IH2 bs Hb.
     apply CF_dep; auto.
-  - intros ns bs' f b1 fs1 r1 b2 fs2 r2 Hd1 Hd2 H1 IH1 H2 IH2 bs Hb.
+  - intros a ns bs' f b1 fs1 r1 b2 fs2 r2 Ha Hd1 Hd2 H1 IH1 H2 IH2 bs Hb.
     apply CF_nodep; auto.
 Qed.
 
@@ -266,9 +268,9 @@ Lemma ext1_mut :
   (forall bs' es1 r1 es2 r2, crels bs' es1 r1 es2 r2 ->
      forall bs y c1 c2, (forall z, In z bs' <-> z = y \/ In z bs) -> brel c1 c2 ->
      crels bs es1 ((y, c1) :: r1) es2 ((y, c2) :: r2)) /\
-  (forall ns bs' fs1 r1 fs2 r2, crelf ns bs' fs1 r1 fs2 r2 ->
+  (forall a ns bs' fs1 r1 fs2 r2, crelf a ns bs' fs1 r1 fs2 r2 ->
      forall bs y c1 c2, (forall z, In z bs' <-> z = y \/ In z bs) -> brel c1 c2 ->
-     crelf ns bs fs1 ((y, c1) :: r1) fs2 ((y, c2) :: r2)) /\
+     crelf a ns bs fs1 ((y, c1) :: r1) fs2 ((y, c2) :: r2)) /\
   (forall b1 b2, brel b1 b2 -> True) /\
   (forall o1 o2, orelb o1 o2 -> True).
 Proof.
@@ -332,9 +334,9 @@ Proof.
   - intros; constructor.
   - intros bs' e1 es1 r1 e2 es2 r2 H1 IH1 H2 IH2 bs y c1 c2 Hb Hbr. constructor; auto.
   - intros; constructor.
-  - intros ns bs' f b1 fs1 r1 b2 fs2 r2 Hd1 Hd2 H1 IH1 H2 IH2 bs y c1 c2 Hb Hbr.
+  - intros a ns bs' f b1 fs1 r1 b2 fs2 r2 Hd H1 IH1 H2 IH2 bs y c1 c2 Hb Hbr.
     apply CF_dep; auto.
-  - intros ns bs' f b1 fs1 r1 b2 fs2 r2 Hd1 Hd2 H1 IH1 H2 IH2 bs y c1 c2 Hb Hbr.
+  - intros a ns bs' f b1 fs1 r1 b2 fs2 r2 Ha Hd1 Hd2 H1 IH1 H2 IH2 bs y c1 c2 Hb Hbr.
     apply CF_nodep; auto.
 Qed.
 
@@ -427,20 +429,22 @@ Proof.
   constructor. apply lookup_In in E. rewrite Forall_forall in H. exact (H _ E).
 Qed.
 
-Lemma crelf_same : forall ns (defs : list (string * tm)) bs r1 r2,
-  (forall x, orelb (lookup x r1) (lookup x r2)) -> crelf ns bs defs r1 defs r2.
+Lemma crelf_same : forall a ns (defs : list (string * tm)) bs r1 r2,
+  (forall x, orelb (lookup x r1) (lookup x r2)) -> crelf a ns bs defs r1 defs r2.
 Proof.
-  intros ns defs bs r1 r2 H. induction defs as [|[f b] defs IH]; [constructor|].
-  destruct (has_deps ns b) eqn:Hd.
+  intros a ns defs bs r1 r2 H. induction defs as [|[f b] defs IH]; [constructor|].
+  destruct a.
   - apply CF_dep; auto. apply crel_same. auto.
-  - apply CF_nodep; auto. apply crel_same. auto.
+  - destruct (has_deps ns b) eqn:Hd.
+    + apply CF_dep; auto. apply crel_same. auto.
+    + apply CF_nodep; auto. apply crel_same. auto.
 Qed.
 
 Lemma brel_refl : forall b, brel b b.
 Proof.
   induction b using binding_ind'.
   - apply B_clos. apply crel_same. intros x _. right. now apply env_refl_of.
-  - apply B_recf. apply crelf_same. now apply env_refl_of.
+  - apply B_rec. apply crelf_same. now apply env_refl_of.
 Qed.
 
 Lemma orelb_refl : forall (rho : env) x, orelb (lookup x rho) (lookup x rho).
